@@ -9,9 +9,10 @@
 //!   D gsha=<sha256 of graph.bin> csha=<sha256 of coords.bin>      (ties this file's encoder to Tbx.Bincode)
 //!   D pfile len=<bytes> sha=<sha256>           the partition file, raw
 //!   D ids=<id> <id> ...                        the partition file decoded (ERR if it is not a Vec<u32>)
-//!   D afile sha=<sha256> hdr=<0|1> nl=<0|1>    the assignment CSV, raw
+//!   F afile sha=<sha256> hdr=<0|1> nl=<0|1>    the assignment CSV, raw (the byte layout of the CSV is not fixed by the
+//!                                              property: validated through the re-parsed rows, compared strictly for drift only)
 //!   D arows=<id>:<lat>:<lon>,...               ... re-parsed (decimal strings -> micro-degrees, exact)
-//!   D cfile sha=<sha256> hdr=<0|1> nl=<0|1>    the cut CSV, raw
+//!   F cfile sha=<sha256> hdr=<0|1> nl=<0|1>    the cut CSV, raw
 //!   D crows=<lat>:<lon>><lat>:<lon>,...        ... re-parsed, one item per cut edge (source > target)
 #[path = "../chipper_common.rs"]
 mod chipper_common;
@@ -25,7 +26,7 @@ fn spec(rng: &mut Rng, w: usize, h: usize, node_keep: u64, edge_keep: u64) -> Gr
 fn generate(rng: &mut Rng, tier: Tier, cases: &mut Vec<Case>) {
     let scale: usize = match tier {
         Tier::Quick => 1,
-        Tier::Thorough => 5,
+        Tier::Thorough => 10,
     };
     // --- tiny graphs: every depth 1..5 x m in 1..3 (paths, squares, 2x3, 3x3, 4x2)
     for &(w, h) in &[(3usize, 1usize), (4, 1), (5, 1), (2, 2), (3, 2), (3, 3), (4, 2)] {
@@ -98,14 +99,14 @@ fn generate(rng: &mut Rng, tier: Tier, cases: &mut Vec<Case>) {
     // --- larger grids
     let big = match tier {
         Tier::Quick => 16,
-        Tier::Thorough => 40,
+        Tier::Thorough => 60,
     };
     for i in 0..big {
         let (w, h) = match tier {
             Tier::Quick => (16 + rng.below(5) as usize, 16 + rng.below(5) as usize),
             Tier::Thorough => {
-                if i < 6 {
-                    (45 + rng.below(10) as usize, 40 + rng.below(10) as usize)
+                if i < 12 {
+                    (48 + rng.below(12) as usize, 45 + rng.below(12) as usize)
                 } else {
                     (22 + rng.below(14) as usize, 22 + rng.below(14) as usize)
                 }
@@ -160,12 +161,13 @@ fn execute(case: &Case, obs: &mut Vec<String>) {
             None => "ERR".to_string(),
         }
     ));
-    let (hdr, rows, nl) = canon_assignment(&out.a);
-    obs.push(format!("D afile sha={} hdr={} nl={}", sha256_hex(&out.a), hdr as u8, nl as u8));
+    let (ahdr, rows, anl) = canon_assignment(&out.a);
     obs.push(format!("D arows={}", rows.join(",")));
-    let (hdr, segs, nl) = canon_cut(&out.c);
-    obs.push(format!("D cfile sha={} hdr={} nl={}", sha256_hex(&out.c), hdr as u8, nl as u8));
+    let (chdr, segs, cnl) = canon_cut(&out.c);
     obs.push(format!("D crows={}", segs.join(",")));
+    // byte layout of the CSV files: free lines, after all determined ones
+    obs.push(format!("F afile sha={} hdr={} nl={}", sha256_hex(&out.a), ahdr as u8, anl as u8));
+    obs.push(format!("F cfile sha={} hdr={} nl={}", sha256_hex(&out.c), chdr as u8, cnl as u8));
 }
 
 fn main() {
